@@ -53,6 +53,8 @@ pub enum Act {
     Part(u64, i32),
     PPart(u64, i32),
     Erange,
+    // write(2) returns 0 for a non-empty buffer: nothing transferred, no errno
+    Zero,
 }
 
 impl Act {
@@ -65,6 +67,7 @@ impl Act {
             Act::Part(j, e) => format!("part:{j}:{e}"),
             Act::PPart(j, e) => format!("ppart:{j}:{e}"),
             Act::Erange => "erange".to_string(),
+            Act::Zero => "zero".to_string(),
         }
     }
 
@@ -74,6 +77,7 @@ impl Act {
             ["short", k] => Some(Act::Short(k.parse().ok()?)),
             ["eintr"] => Some(Act::Eintr),
             ["erange"] => Some(Act::Erange),
+            ["zero"] => Some(Act::Zero),
             ["err", e] => Some(Act::Err(e.parse().ok()?)),
             ["perr", e] => Some(Act::PErr(e.parse().ok()?)),
             ["part", j, e] => Some(Act::Part(j.parse().ok()?, e.parse().ok()?)),
@@ -223,6 +227,7 @@ fn act_kind(a: &Act) -> String {
         Act::Part(_, e) => format!("part-{}", errno_name(*e)),
         Act::PPart(_, e) => format!("ppart-{}", errno_name(*e)),
         Act::Erange => "erange".to_string(),
+        Act::Zero => "zero".to_string(),
     }
 }
 
